@@ -550,7 +550,10 @@ func runC37(c *Ctx) error {
 		}
 		o := sysOpts{Managed: p.managed, Detect: p.detect, NKeep: p.nkeep, MaxLevels: 4,
 			TableSize: int64(256) << uint(c.Rng.Intn(5)), BaseLevelSize: []int64{200, 600, 2 << 10, 8 << 10}[c.Rng.Intn(4)]}
-		prefix := [][]byte{[]byte("a"), []byte("b"), []byte("ab"), {0xff}}[c.Rng.Intn(4)]
+		// single-byte prefixes only: a prefix that properly extends a stored user key runs into the
+		// recorded DropPrefix findings F24 (containsPrefix misses the table) / F20 (match into the
+		// version suffix), which belong to C29
+		prefix := [][]byte{[]byte("a"), []byte("b"), {0x00}, {0xff}}[c.Rng.Intn(4)]
 
 		// ---- run 1: on disk ----
 		dir := scratchDir("d")
